@@ -446,8 +446,6 @@ class io_uring_context::read_sender {
 
     void start_io() noexcept {
       UNIFEX_ASSERT(context_.is_running_on_io_thread());
-      stopCallback_.construct(
-          get_stop_token(receiver_), cancel_callback{*this});
       auto populateSqe = [this](io_uring_sqe& sqe) noexcept {
         sqe.opcode = IORING_OP_READV;
         sqe.fd = fd_;
@@ -463,7 +461,15 @@ class io_uring_context::read_sender {
       if (!context_.try_submit_io(populateSqe)) {
         this->execute_ = &operation::on_schedule_complete;
         context_.schedule_pending_io(this);
+        return;
       }
+
+      // Install the stop callback only once the request is in the submission
+      // queue: start_io() runs again for an operation that had to wait for
+      // space, and a cancellation submitted ahead of its target finds nothing
+      // to cancel.
+      stopCallback_.construct(
+          get_stop_token(receiver_), cancel_callback{*this});
     }
 
     void request_stop() noexcept {
@@ -644,8 +650,6 @@ class io_uring_context::write_sender {
 
     void start_io() noexcept {
       UNIFEX_ASSERT(context_.is_running_on_io_thread());
-      stopCallback_.construct(
-          get_stop_token(receiver_), cancel_callback{*this});
       auto populateSqe = [this](io_uring_sqe& sqe) noexcept {
         sqe.opcode = IORING_OP_WRITEV;
         sqe.fd = fd_;
@@ -661,7 +665,15 @@ class io_uring_context::write_sender {
       if (!context_.try_submit_io(populateSqe)) {
         this->execute_ = &operation::on_schedule_complete;
         context_.schedule_pending_io(this);
+        return;
       }
+
+      // Install the stop callback only once the request is in the submission
+      // queue: start_io() runs again for an operation that had to wait for
+      // space, and a cancellation submitted ahead of its target finds nothing
+      // to cancel.
+      stopCallback_.construct(
+          get_stop_token(receiver_), cancel_callback{*this});
     }
 
     void request_stop() noexcept {
@@ -1151,8 +1163,6 @@ class io_uring_context::accept_sender {
 
     void start_io() noexcept {
       UNIFEX_ASSERT(context_.is_running_on_io_thread());
-      stopCallback_.construct(
-          get_stop_token(receiver_), cancel_callback{*this});
       auto populateSqe = [this](io_uring_sqe& sqe) noexcept {
         sqe.opcode = IORING_OP_ACCEPT;
         sqe.accept_flags = SOCK_NONBLOCK;
@@ -1167,7 +1177,15 @@ class io_uring_context::accept_sender {
       if (!context_.try_submit_io(populateSqe)) {
         this->execute_ = &operation::on_schedule_complete;
         context_.schedule_pending_io(this);
+        return;
       }
+
+      // Install the stop callback only once the request is in the submission
+      // queue: start_io() runs again for an operation that had to wait for
+      // space, and a cancellation submitted ahead of its target finds nothing
+      // to cancel.
+      stopCallback_.construct(
+          get_stop_token(receiver_), cancel_callback{*this});
     }
 
     void request_stop() noexcept {
